@@ -59,8 +59,9 @@ Present ==
     [] Family \in {"pkg", "pkg-q"} -> {"p", "p.s", "p.s.c"}
     [] Family \in {"graph", "graph-q", "fine"} -> {"p", "p.a", "p.b", "q"}
     [] Family \in {"wild", "wild-q", "retarget", "retarget-q", "selfcyc", "twostar", "apicyc"} -> {"p", "p.a", "p.b"}
-    [] Family \in {"spl-down", "spl-up", "facade", "relay"} -> {"p", "p.a", "p.b", "p.s"}
+    [] Family \in {"spl-down", "spl-up", "facade", "relay", "cycsub"} -> {"p", "p.a", "p.b", "p.s"}
     [] Family = "updots" -> {"p", "p.s", "p.s.c"}
+    [] Family = "deepdots" -> {"p", "p.s", "p.s.c", "p.s.t"}
     [] Family = "aliasstar" -> {"p", "p.a", "p.b"}
     [] Family = "side" -> {"p", "q", "r"}
     [] OTHER -> {"p"}
@@ -71,8 +72,9 @@ ModOrder ==
     [] Family = "spl-down" -> <<"p.s", "p.b", "p.a", "p">>    \* p.a splices p.b's __all__, which splices p.s's: dependents are expanded first
     [] Family = "spl-up" -> <<"p.a", "p.b", "p.s", "p">>      \* p.s splices p.b's, which splices p.a's: dependencies are expanded first
     [] Family = "side" -> <<"r", "q", "p">>
-    [] Family \in {"facade", "relay"} -> <<"p.s", "p.a", "p.b", "p">>     \* p star-imports p.b, which re-exports from p.a, which imports the sub-module p.s
-    [] Family = "updots" -> <<"p", "p.s", "p.s.c">>          \* the sub-package / its module import from the (already imported) ancestors
+    [] Family \in {"facade", "relay", "cycsub"} -> <<"p.s", "p.a", "p.b", "p">>     \* p star-imports p.b, which re-exports from p.a, which imports the sub-module p.s
+    [] Family = "updots" -> <<"p", "p.s", "p.s.c">>
+    [] Family = "deepdots" -> <<"p", "p.s", "p.s.c", "p.s.t">>          \* the sub-package / its module import from the (already imported) ancestors
     [] Family = "aliasstar" -> <<"p.a", "p.b", "p">>
     [] Family \in {"selfcyc", "twostar", "apicyc"} -> <<"p.a", "p.b", "p">>           \* a sub-module star-imports its (already imported) parent package
     [] Family \in {"graph", "graph-q", "fine"} -> <<"p.a", "p.b", "p", "q">>
@@ -122,6 +124,11 @@ Menu(m) ==
         ( CASE m = "p" -> {Def("x"), Def("y")}
             [] m = "p.s" -> {FromRel("p", "x"), FromRel("p", "y"), From("p", "x"), FromRel("p.s", "c"), Def("x")}
             [] OTHER -> {FromRel("p", "x"), FromRel("p.s", "x"), FromRel("p.s", "y")} )
+    [] Family = "deepdots" ->      \* relative imports with >= 2 leading dots in the __init__ of a sub-package nested three levels deep (p/s/t)
+        ( CASE m = "p" -> {Def("x")}
+            [] m = "p.s" -> {Def("y")}
+            [] m = "p.s.c" -> {Def("x")}
+            [] OTHER -> {FromRel("p.s.c", "x"), FromRel("p.s", "y"), FromRel("p.s", "c"), StarRel("p.s.c"), FromRel("p", "x"), From("p.s.c", "x")} )
     [] Family = "aliasstar" ->     \* wildcard sources named through a module alias (`import p.a as y` ... `from p.y import *`), inside cycles
         ( CASE m = "p.a" -> {Star("p.y"), Def("x"), Star("p.b")}
             [] m = "p.b" -> {Star("p.y"), Star("p.a")}
@@ -134,6 +141,11 @@ Menu(m) ==
         ( CASE m = "p.a" -> {From("p.b", "x")}
             [] m = "p.b" -> {From("p.a", "x")}
             [] OTHER -> {From("p.a", "x")} )
+    [] Family = "cycsub" ->        \* a star-imported name that is a cyclic / dangling alias AND names a real sub-module of the importer
+        ( CASE m = "p.s" -> {Def("x")}
+            [] m = "p.a" -> {From("p.b", "s"), From("p", "s")}
+            [] m = "p.b" -> {From("p.a", "s"), From("zz", "s")}
+            [] OTHER -> {Star("p.a"), Star("p.b")} )
     [] Family = "twostar" ->       \* the same alias is star-imported from two modules (the second expansion finds it in `seen`)
         ( CASE m = "p.a" -> {From("zz", "x"), From("p.b", "x")}
             [] m = "p.b" -> {Star("p.a.x"), Def("x")}
@@ -206,9 +218,10 @@ MaxLen(m) ==
     [] Family \in {"spl-down", "spl-up"} -> (IF m = "p" THEN 1 ELSE 2)
     [] Family = "side" -> (IF m = "r" THEN 1 ELSE 2)
     [] Family = "selfcyc" -> 2
-    [] Family = "twostar" -> 1
+    [] Family \in {"twostar", "cycsub"} -> 1
     [] Family = "facade" -> (IF m = "p.a" THEN 2 ELSE 1)
     [] Family = "updots" -> (IF m = "p.s.c" THEN 1 ELSE 2)
+    [] Family = "deepdots" -> (IF m = "p.s.t" THEN 2 ELSE 1)
     [] Family = "aliasstar" -> (IF m = "p" THEN 1 ELSE 2)
     [] Family = "apicyc" -> 1
     [] Family \in {"pkg", "pkg-q"} -> (IF m = "p.s.c" THEN 1 ELSE 2)
@@ -222,10 +235,12 @@ MaxTotal ==
   ELSE IF Family = "side" THEN (IF Scale = "quick" THEN 4 ELSE 5)
   ELSE IF Family = "selfcyc" THEN (IF Scale = "quick" THEN 3 ELSE 4)
   ELSE IF Family = "twostar" THEN 3
+  ELSE IF Family = "cycsub" THEN 4
   ELSE IF Family = "attrall" THEN 6
   ELSE IF Family \in {"relay", "repeat"} THEN 5
   ELSE IF Family = "facade" THEN 5
   ELSE IF Family = "updots" THEN 4
+  ELSE IF Family = "deepdots" THEN 5
   ELSE IF Family = "aliasstar" THEN 4
   ELSE IF Family = "apicyc" THEN 3
   ELSE IF Scale = "quick"
